@@ -444,19 +444,21 @@ def StB (src : List Nat) (lo : Nat) : StrSt → Prop
   | .uni bs => isCharBoundary src bs = true ∧ isCharBoundary src (bs + 1) = true ∧ bs + 1 ≤ lo
   | .hex bs _ _ => isCharBoundary src bs = true ∧ isCharBoundary src (bs + 1) = true ∧ bs + 1 ≤ lo
 
-theorem scanString_label_wf (src : List Nat) (start : Nat)
-    (hs0 : isCharBoundary src start = true) (hs1 : isCharBoundary src (start + 1) = true)
-    (hs2 : start + 1 ≤ src.length) :
+/-- core of the lexer theorems: scanning a well-formed tiling, every error other than "unterminated
+    string" (whose label depends on where the caller says the literal started) and other than the
+    class `splitsChar` has a well-formed label -/
+theorem scanString_label_wf' (src : List Nat) (start : Nat) :
     ∀ (cs : List (Nat × Nat)) (st : StrSt) (lo : Nat) (e : LexErr),
     Chain src lo cs → StB src lo st → scanString src.length start st cs = .error e →
-    e.splitsChar = false → WF src e.label := by
+    e.splitsChar = false → e = .stringLiteral start ∨ WF src e.label := by
   intro cs
   induction cs with
   | nil =>
     intro st lo e hc hst h hcl
     have hl := chain_start hc
-    cases st <;> simp [scanString] at h <;> subst h <;> simp only [StB] at hst <;>
-      simp only [LexErr.label, WF] <;> (first | exact ⟨by omega, by omega, hs0, hs1⟩ | exact ⟨by omega, by omega, hst.1, hst.2.1⟩)
+    cases st <;> simp [scanString] at h <;> subst h <;> simp only [StB] at hst
+    · exact Or.inl rfl
+    all_goals (refine Or.inr ?_; simp only [LexErr.label, WF]; exact ⟨by omega, by omega, hst.1, hst.2.1⟩)
   | cons x rest ih =>
     intro st lo e hc hst h hcl
     obtain ⟨p, c⟩ := x
@@ -486,7 +488,7 @@ theorem scanString_label_wf (src : List Nat) (start : Nat)
           simp only [LexErr.splitsChar, decide_eq_false_iff_not, Nat.not_le] at hcl
           have : w = 1 := hw1 hcl
           subst this
-          exact ⟨by simp [LexErr.label], by simp only [LexErr.label]; omega, hb, hn.2.1⟩
+          exact Or.inr ⟨by simp [LexErr.label], by simp only [LexErr.label]; omega, hb, hn.2.1⟩
     | uni bs =>
       simp only [scanString] at h
       simp only [StB] at hst
@@ -496,21 +498,21 @@ theorem scanString_label_wf (src : List Nat) (start : Nat)
         simp only [LexErr.splitsChar, decide_eq_false_iff_not, Nat.not_le] at hcl
         have : w = 1 := hw1 hcl
         subst this
-        exact ⟨by simp [LexErr.label], by simp only [LexErr.label]; omega, hb, hn.2.1⟩
+        exact Or.inr ⟨by simp [LexErr.label], by simp only [LexErr.label]; omega, hb, hn.2.1⟩
     | hex bs n v =>
       simp only [scanString] at h
       simp only [StB] at hst
       split at h
       · split at h
         · cases h
-          refine ⟨?_, ?_, hst.1, ?_⟩ <;> simp only [LexErr.label] <;> rw [hn.2.2]
+          refine Or.inr ⟨?_, ?_, hst.1, ?_⟩ <;> simp only [LexErr.label] <;> rw [hn.2.2]
           · omega
           · exact hn.1
           · exact hn.2.1
         · split at h
           · exact ih _ _ _ hr (by simp [StB]) h hcl
           · cases h
-            refine ⟨?_, ?_, hst.1, ?_⟩ <;> simp only [LexErr.label] <;> rw [hn.2.2]
+            refine Or.inr ⟨?_, ?_, hst.1, ?_⟩ <;> simp only [LexErr.label] <;> rw [hn.2.2]
             · omega
             · exact hn.1
             · exact hn.2.1
@@ -520,7 +522,54 @@ theorem scanString_label_wf (src : List Nat) (start : Nat)
           simp only [LexErr.splitsChar, decide_eq_false_iff_not, Nat.not_le] at hcl
           have : w = 1 := hw1 hcl
           subst this
-          exact ⟨by simp [LexErr.label], by simp only [LexErr.label]; omega, hb, hn.2.1⟩
+          exact Or.inr ⟨by simp [LexErr.label], by simp only [LexErr.label]; omega, hb, hn.2.1⟩
 
+
+theorem scanString_label_wf (src : List Nat) (start : Nat)
+    (hs0 : isCharBoundary src start = true) (hs1 : isCharBoundary src (start + 1) = true)
+    (hs2 : start + 1 ≤ src.length) (cs : List (Nat × Nat)) (st : StrSt) (lo : Nat) (e : LexErr)
+    (hc : Chain src lo cs) (hst : StB src lo st) (h : scanString src.length start st cs = .error e)
+    (hcl : e.splitsChar = false) : WF src e.label := by
+  rcases scanString_label_wf' src start cs st lo e hc hst h hcl with h1 | h1
+  · subst h1; exact ⟨by simp [LexErr.label], by simpa [LexErr.label] using hs2, hs0, hs1⟩
+  · exact h1
+
+/-- boundaries of a suffix are boundaries of the whole text, shifted -/
+theorem isCharBoundary_append (pre sub : List Nat) (i : Nat) (hi : 0 < i) :
+    isCharBoundary (pre ++ sub) (pre.length + i) = isCharBoundary sub i := by
+  unfold isCharBoundary
+  cases i with
+  | zero => omega
+  | succ n =>
+    have h1 : pre.length + (n + 1) = (pre.length + n) + 1 := by omega
+    rw [h1]
+    have h2 : (pre ++ sub)[pre.length + n + 1]? = sub[n + 1]? := by
+      rw [show pre.length + n + 1 = pre.length + (n + 1) by omega]
+      exact List.getElem?_append_right (by omega) |>.trans (by simp)
+    simp only [h2]
+    cases sub[n + 1]? with
+    | none =>
+      rw [Bool.eq_iff_iff]
+      simp only [beq_iff_eq, List.length_append]
+      omega
+    | some b => rfl
+
+/-- a well-formed span of a well-formed suffix is a well-formed span of the whole text -/
+theorem WF_shift (pre sub : List Nat) (hu : wfUtf8 sub = true) (s : Span) (h : WF sub s)
+    (hne : s.start < s.stop) : WF (pre ++ sub) ⟨s.start + pre.length, s.stop + pre.length⟩ := by
+  obtain ⟨h1, h2, h3, h4⟩ := h
+  have hb0 : isCharBoundary (pre ++ sub) pre.length = true :=
+    (chain_start (chain_charIndicesFrom pre.length sub pre rfl hu)).2.1
+  refine ⟨by simp; omega, by simp; omega, ?_, ?_⟩
+  · by_cases hz : s.start = 0
+    · simp [hz]; exact hb0
+    · have := isCharBoundary_append pre sub s.start (by omega)
+      rw [show s.start + pre.length = pre.length + s.start by omega]
+      simp only []
+      rw [this]; exact h3
+  · have := isCharBoundary_append pre sub s.stop (by omega)
+    rw [show s.stop + pre.length = pre.length + s.stop by omega]
+    simp only []
+    rw [this]; exact h4
 
 end Spans
